@@ -119,7 +119,8 @@ def shard(shard_i, nshards, payload):
         import vgen
         for i in range(shard_i, payload["n_units"], nshards):
             rng = core.rng_for(seed, "c08v", i)
-            decls = vgen.VGen(rng, avoid=payload["avoid_v"]).unit()
+            decls = vgen.VGen(rng, avoid=payload["avoid_v"]).unit() if i % 4 != 3 else \
+                vgen.VGen(rng, avoid=payload["avoid_v"]).unit(n_fbs=3, n_programs=2, with_config=False)
             planted = None
             if i % 2:
                 faults = [f for f in vgen.plant_all(decls) if not f[1].endswith("rhs-enum-target")]
@@ -129,7 +130,26 @@ def shard(shard_i, nshards, payload):
                 if names2 and i % 6 == 5:
                     faults = names2
                 if faults:
-                    planted, _, decls, _ = rng.choice(faults)
+                    planted, _, fdecls, _ = rng.choice(faults)
+                    if i % 4 == 3 and len(faults) > 1:
+                        # two faults in different declarations: which of the two problems is reported must not depend
+                        # on how a declaration's name is spelled
+                        # (preferably two problems that one and the same rule reports, with different codes)
+                        grp = [f for f in faults if f[0] in ("P0006", "P0007", "P0008", "P0009", "P0021")]
+                        if len({f[0] for f in grp}) > 1:
+                            planted, _, fdecls, _ = rng.choice(grp)
+                            p2, _, f2, _ = rng.choice([f for f in grp if f[0] != planted])
+                        else:
+                            p2, _, f2, _ = rng.choice(faults)
+                        ia = [k_ for k_, (x_, y_) in enumerate(zip(decls, fdecls)) if x_ != y_]
+                        ib = [k_ for k_, (x_, y_) in enumerate(zip(decls, f2)) if x_ != y_]
+                        if ia and ib and not set(ia) & set(ib) and len(fdecls) == len(decls) == len(f2):
+                            fdecls = list(fdecls)
+                            for k_ in ib:
+                                fdecls[k_] = f2[k_]
+                            planted = planted + "+" + p2
+                            res.count("dim:idcase-unit-two-faults")
+                    decls = fdecls
             canon = vgen.render_unit(decls)
             o0 = probe.run({"op": "analyze", "files": [["c08.st", canon]]})
             res.evaluations += 1
